@@ -177,8 +177,40 @@ func (g *gen) shadowed(name string) bool {
 
 var scalarTypes = []string{"int", "string", "bool", "float64", "error"}
 
+// importedTypes lists types of imported packages usable in declarations (the source
+// names them through the file's import alias).
+func (g *gen) importedTypes() []string {
+	var ts []string
+	for i, s := range g.imps {
+		a := fmt.Sprintf("p%d", i)
+		switch {
+		case s.xgo > 0:
+			ts = append(ts, "*"+a+".Thing", a+".Thing")
+		case s.path == "strings":
+			ts = append(ts, "*"+a+".Builder")
+		case s.path == "bytes":
+			ts = append(ts, a+".Buffer", "*"+a+".Buffer")
+		case s.path == "math/big":
+			ts = append(ts, "*"+a+".Int")
+		case s.path == "text/template" || s.path == "html/template":
+			ts = append(ts, "*"+a+".Template")
+		case s.path == "os":
+			ts = append(ts, "*"+a+".File")
+		}
+	}
+	return ts
+}
+
+func isImportedType(t string) bool {
+	t = strings.TrimPrefix(t, "*")
+	return len(t) > 2 && t[0] == 'p' && t[1] >= '0' && t[1] <= '9' && strings.Contains(t, ".")
+}
+
 func (g *gen) anyType() string {
 	ts := []string{"int", "string", "bool", "float64", "error", "[]int", "[]string", "map[string]int", "chan int", "func(int) int"}
+	if it := g.importedTypes(); len(it) > 0 && chance(g.c, 1, 4) {
+		return it[g.c.Int(len(it))]
+	}
 	for _, s := range g.structs {
 		if !g.shadowed(s) {
 			ts = append(ts, s, "*"+s)
@@ -193,6 +225,15 @@ func (g *gen) anyType() string {
 }
 
 func (g *gen) lit(t string) string {
+	if isImportedType(t) {
+		if strings.HasPrefix(t, "*") {
+			return "new(" + t[1:] + ")"
+		}
+		if g.hdr {
+			return "*new(" + t + ")"
+		}
+		return "(" + t + "{})"
+	}
 	if g.hdr {
 		if strings.HasPrefix(t, "*") {
 			return "new(" + t[1:] + ")"
@@ -269,7 +310,7 @@ func (g *gen) expr(t string, d int) string {
 	}
 	switch t {
 	case "int":
-		switch g.c.Int(12) {
+		switch g.c.Int(13) {
 		case 0:
 			return "(" + g.expr("int", d-1) + " + " + g.expr("int", d-1) + ")"
 		case 1:
@@ -299,6 +340,14 @@ func (g *gen) expr(t string, d int) string {
 				s := g.structs[g.c.Int(len(g.structs))]
 				if !g.shadowed(s) {
 					return "(" + g.expr(s, d-1) + ").A"
+				}
+			}
+		case 12:
+			for _, it := range g.importedTypes() {
+				if strings.HasSuffix(it, ".Buffer") || strings.HasSuffix(it, ".Builder") {
+					if vs := g.visible(it); len(vs) > 0 {
+						return vs[g.c.Int(len(vs))] + ".Len()"
+					}
 				}
 			}
 		case 11:
@@ -451,6 +500,9 @@ func (g *gen) expr(t string, d int) string {
 			g.pop()
 			return "func(" + x + " int) int { return " + body + " }"
 		}
+	}
+	if isImportedType(t) {
+		return g.lit(t)
 	}
 	if g.hdr {
 		if strings.HasPrefix(t, "*") {
